@@ -1,4 +1,91 @@
-(* C11 — placeholder until Proofs/ExportSM_proofs.v lands *)
-From TsRs Require Import Base.Str Base.Outcome Model.ExportSM.
-Theorem C11_placeholder : forall fs, create_dir_all fs [] = Ok fs.
+(* C11 — an export writes exactly the root's and its dependencies' files, as documented.  Statements only; proofs in
+   Proofs/ExportSM_proofs.v over Model/ExportSM.v (recursive walk over visit_dependencies with the seen-set). *)
+From TsRs Require Import Base.Str Base.Outcome Gen.Tables Model.Case Model.TsAst Model.Rust Model.Gen Model.Path Model.Merge Model.Imports Model.ExportSM
+  Spec.PathOracle Proofs.Path_proofs Proofs.ExportSM_proofs.
+From Coq Require Import List.
+Import ListNotations.
+
+(* every exportable type reachable from the root (through any chain of visit_dependencies: cycles, generic arguments,
+   inlined / flattened types, `as` types and parameter defaults are all just edges of the graph TS reports) is exported:
+   when export_all / export_all_to returns Ok, its name is recorded under its own target path *)
+Theorem C11_every_reachable_type_is_exported :
+  forall cfg U st i dir st', names_ok (c_cwd cfg) ->
+    export_all_into cfg U st i dir = (st', Ok tt) ->
+    forall j, reach U i j -> exists p, target cfg U j dir = Some p /\ registered (s_reg st') p (t_ident (tget U j)).
+Proof. intros cfg U st i dir st' Hc. exact (export_all_complete cfg U Hc st i dir st'). Qed.
+
+(* and nothing else is touched, whatever the outcome: regular files and registry entries change at target paths of
+   reachable exportable types only (pre-existing unrelated files stay byte for byte); no registry entry is lost *)
+Theorem C11_nothing_else_is_touched :
+  forall cfg U st i dir st' r, names_ok (c_cwd cfg) ->
+    export_all_into cfg U st i dir = (st', r) ->
+    reg_le (s_reg st) (s_reg st') /\
+    (forall q, ~ (exists j, reach U i j /\ target cfg U j dir = Some q) ->
+       forall c, fs_get (s_fs st') q = Some (File c) <-> fs_get (s_fs st) q = Some (File c)) /\
+    (forall q, (forall j, reach U i j -> target cfg U j dir <> Some q) -> reg_get (s_reg st') q = reg_get (s_reg st) q).
+Proof. intros cfg U st i dir st' r Hc. exact (export_all_frame cfg U Hc st i dir st' r). Qed.
+
+(* the location: the base directory joined with the path the type reports for itself, made absolute and dot-free *)
+Theorem C11_target_is_base_joined_with_output_path :
+  forall cfg U j dir p,
+    target cfg U j dir = Some p <->
+    exists op cs, t_out (tget U j) = Some op /\ absolute (c_cwd cfg) (path_join dir op) = Ok cs /\ p = names_of_abs cs.
+Proof.
+  intros cfg U j dir p. unfold target, target_of. destruct (t_out (tget U j)) as [op|]; [|split; [discriminate | intros (op & cs & H & _); discriminate]].
+  destruct (absolute (c_cwd cfg) (path_join dir op)) as [cs|e|m] eqn:E.
+  - split; [intros H; inversion H; exists op, cs; auto | intros (op' & cs' & H1 & H2 & ->); inversion H1; subst; rewrite E in H2; inversion H2; reflexivity].
+  - split; [discriminate | intros (op' & cs' & H1 & H2 & _); inversion H1; subst; rewrite E in H2; discriminate].
+  - split; [discriminate | intros (op' & cs' & H1 & H2 & _); inversion H1; subst; rewrite E in H2; discriminate].
+Qed.
+
+(* one successful export_into writes under exactly that path *)
+Theorem C11_written_path_is_the_reported_path :
+  forall cfg U st i dir st', names_ok (c_cwd cfg) ->
+    export_into cfg U st i dir = (st', Ok tt) ->
+    exists p, target cfg U i dir = Some p /\ registered (s_reg st') p (t_ident (tget U i)).
+Proof. intros cfg U st i dir st' Hc. exact (export_into_ok cfg U Hc st i dir st'). Qed.
+
+(* the relative output path the derive generates: `<TypeScript name>.ts` by default, the given path with that appended
+   when export_to ends in `/`, the given path verbatim otherwise *)
+Theorem C11_output_path_forms :
+  forall d,
+    output_path_of d =
+    match c_export_to (attrs_of d) with
+    | None => ts_ident d ++ lit ".ts"
+    | Some s => if ends_with (lit "/") s then s ++ ts_ident d ++ lit ".ts" else s
+    end.
 Proof. reflexivity. Qed.
+
+(* non-vacuity: a cycle A <-> B, C reachable only through B, D not exportable, E unrelated; export_all(A) records A, B, C,
+   writes three files and leaves the unrelated file alone *)
+Module C11_ex.
+Local Open Scope string_scope.
+Definition l (s : String.string) : str := lit s.
+Definition mk (n : String.string) (o : option String.string) (vs : list nat) (k : nat) : tinfo :=
+  {| t_ident := l n; t_out := match o with Some s => Some (l s) | None => None end; t_decl := l "export type " ++ l n ++ l " = null;"; t_visits := vs; t_wg := k |}.
+Definition U : universe := [mk "A" (Some "A.ts") [1; 3]%nat 0%nat; mk "B" (Some "sub/B.ts") [0; 2]%nat 1%nat; mk "C" (Some "../C.ts") [] 2%nat; mk "D" None [4]%nat 3%nat; mk "E" (Some "E.ts") [] 4%nat].
+Definition cfg : config := {| c_esm := false; c_cwd := [l "w"]; c_env := None |}.
+Definition fs0 : fsys := [([l "w"; l "bindings"; l "other.txt"], File (l "keep"))].
+Definition res := export_all_into cfg U (init_state fs0) 0%nat (l "./bindings").
+End C11_ex.
+Example C11_nonvacuous :
+  snd C11_ex.res = Ok tt /\
+  map fst (files_of (s_fs (fst C11_ex.res))) =
+    map (map lit) [["w"; "C.ts"]; ["w"; "bindings"; "sub"; "B.ts"]; ["w"; "bindings"; "A.ts"]; ["w"; "bindings"; "other.txt"]]%string /\
+  reach C11_ex.U 0%nat 2%nat /\ ~ reach C11_ex.U 0%nat 4%nat.
+Proof.
+  split; [vm_compute; reflexivity|]. split; [vm_compute; reflexivity|]. split.
+  - apply (reach_step _ 0%nat 1%nat 2%nat); [apply (reach_step _ 0%nat 0%nat 1%nat); [apply reach_root | left; reflexivity | discriminate] | right; left; reflexivity | discriminate].
+  - assert (G : forall j, reach C11_ex.U 0%nat j -> j = 0%nat \/ j = 1%nat \/ j = 2%nat).
+    { induction 1 as [|j k Hr IH Hk Ho]; [left; reflexivity|]. destruct IH as [-> | [-> | ->]]; cbn in Hk.
+      - destruct Hk as [Hk|[Hk|Hk]]; [subst k; auto | subst k; contradiction Ho; reflexivity | contradiction].
+      - destruct Hk as [Hk|[Hk|Hk]]; [subst k; auto | subst k; auto | contradiction].
+      - contradiction. }
+    intros H. destruct (G 4%nat H) as [E|[E|E]]; discriminate E.
+Qed.
+
+Print Assumptions C11_every_reachable_type_is_exported.
+Print Assumptions C11_nothing_else_is_touched.
+Print Assumptions C11_target_is_base_joined_with_output_path.
+Print Assumptions C11_written_path_is_the_reported_path.
+Print Assumptions C11_output_path_forms.
